@@ -52,7 +52,7 @@ func scenarioC13(c *Ctx) {
 	ref.Ctl.record = false
 	final := ref.Snapshot()
 	ref.Close()
-	refRound, refOps, refSigs := roundProj(final, round), sectionOf(final, " OPS ", " DEL "), sectionOf(final, " SIGS", " BOARD ")
+	refRound, refOps, refSigs := roundProj(final, round), sectionOf(final, " VIS ", " SIGS"), sectionOf(final, " SIGS", " BOARD ")
 	var cases []HistCase
 	total := 0
 	for i := range h {
@@ -71,7 +71,7 @@ func scenarioC13(c *Ctx) {
 				if roundProj(got, round) != refRound || sectionOf(got, " SIGS", " BOARD ") != refSigs {
 					fail("crash-changes-outcome", map[string]interface{}{"after": after, "before": before},
 						fmt.Sprintf("a crash after '%s' and before '%s' while handling %s changes the round's final state", after, before, ev), rep)
-				} else if sectionOf(got, " OPS ", " DEL ") != refOps {
+				} else if sectionOf(got, " VIS ", " SIGS") != refOps {
 					fail("crash-loses-operation", map[string]interface{}{"after": after, "before": before},
 						fmt.Sprintf("a crash after '%s' and before '%s' while handling %s: the operation is not offered after the restart", after, before, ev), rep)
 				}
@@ -84,7 +84,7 @@ func scenarioC13(c *Ctx) {
 		items = append(items, h[i:]...)
 		pos := i
 		cases = append(cases, HistCase{Kind: "clean-restart", User: me, Items: items, Check: func(o RunObs) {
-			if roundProj(o.After, round) != refRound || sectionOf(o.After, " OPS ", " DEL ") != refOps || sectionOf(o.After, " SIGS", " BOARD ") != refSigs {
+			if roundProj(o.After, round) != refRound || sectionOf(o.After, " VIS ", " SIGS") != refOps || sectionOf(o.After, " SIGS", " BOARD ") != refSigs {
 				fail("restart-changes-outcome", map[string]interface{}{}, "a clean stop/start between two messages changes the outcome (lost operations or state)", map[string]interface{}{"before_message": pos})
 			}
 		}})
@@ -112,7 +112,7 @@ func scenarioC13(c *Ctx) {
 			total++
 			cases = append(cases, HistCase{Kind: "crash-result", User: me, Items: items, PrefixKey: "result-crash", Check: func(ob RunObs) {
 				posted := strings.Count(sectionOf(ob.After, " BOARD ", ""), "[") - strings.Count(sectionOf(ob.Before, " BOARD ", ""), "[")
-				stillPending := strings.Contains(sectionOf(ob.After, " OPS ", " DEL "), opProj) && !strings.Contains(sectionOf(ob.After, " DEL ", " SIGS"), opProj)
+				stillPending := strings.Contains(sectionOf(ob.After, " VIS ", " SIGS"), opProj)
 				if posted < len(d.ResultMsgs) && !stillPending {
 					fail("crash-loses-operation", map[string]interface{}{"handler": "executeOperation", "after_durable_writes": kk},
 						fmt.Sprintf("a crash after %d durable writes of an operation result: only %d of %d messages reached the board and the operation is no longer pending", kk, posted, len(d.ResultMsgs)),
